@@ -335,3 +335,69 @@ Proof.
   intros Hwf. rewrite (L0_refines_L1 ops pm_init WfRing_init). rewrite abs_init.
   apply sat_run_outs. apply run_refines; [reflexivity|exact Hwf].
 Qed.
+
+(* ---- C03: NACKs inside the window are answered exactly ---- *)
+(* For an outgoing number within 8192 of the newest one, Reverse answers with
+   THE source packet whose (unwrapped) outgoing number it is, or with nothing:
+   no aliasing modulo 2^16, never a withheld packet. *)
+Lemma reverse_window a G O : Inv a G -> gGs G <> [] ->
+  let ONext := gNext G - zl (gD G) in
+  ONext - 8192 <= O < ONext ->
+  let '(ok, s, _) := l1_reverse a (w16 O) in
+  ok = true -> exists S, w16 S = s /\ ~ In S (gD G) /\ out (gD G) S = O /\ S < gNext G.
+Proof.
+  destruct G as [Next D gs0]. unfold Inv. cbn [gNext gD gGs].
+  intros (Hst & Hn & Hd & Hnd & Hlt & Hv & Hc & Hg & Hh & Hnil & He) Hne.
+  set (ONext := Next - zl D). intros HO.
+  unfold l1_reverse.
+  destruct (l_nil a) eqn:En; [exfalso; apply Hne; apply Hnil; reflexivity|].
+  rewrite Hv.
+  assert (Hco : chainP opos ONext gs0).
+  { unfold ONext. rewrite <- (before_all D Next Hlt). apply chain_out; assumption. }
+  pose proof (lwalk_sound opos (fun e => w16 (e_first e + e_delta e)) (fun e => w16 (w16 O - e_delta e))
+                ltac:(intros g; unfold opos; cbn [erase e_first e_delta]; unfold w16; lia)
+                gs0 ONext O Hco ltac:(lia) ltac:(lia)) as Hw.
+  destruct (lwalk (map erase gs0) (w16 O) _ _) as [[v p]|]; cbn [triple]; [|discriminate].
+  intros _. destruct Hw as (g & Hin & Hcov & Hv' & _).
+  rewrite Forall_forall in Hg. unfold opos in Hcov.
+  destruct (gok_out D g (O - Delta g) (Hg g Hin) ltac:(lia)) as (Hnot & Hout).
+  exists (O - Delta g). split; [|split; [exact Hnot|split; [lia|]]].
+  - rewrite Hv'. cbn [erase e_delta]. unfold w16. lia.
+  - destruct (chain_ends First gs0 Next g Hc Hin). lia.
+Qed.
+
+(* every reachable state is related to the specification state reached by the
+   same operations *)
+Fixpoint l1_after (a : l1) (ops : list op) : l1 :=
+  match ops with [] => a | o :: ops' => l1_after (fst (l1_step a o)) ops' end.
+Fixpoint spec_after (st : sst) (ops : list op) : sst :=
+  match ops with [] => st | o :: ops' => spec_after (fst (spec_step st o)) ops' end.
+
+Lemma rel_after ops : forall a st, rel a st -> Forall wf_op16 ops ->
+  rel (l1_after a ops) (spec_after st ops).
+Proof.
+  induction ops as [|o ops IH]; intros a st Hrel Hwf; cbn [l1_after spec_after]; [exact Hrel|].
+  inversion Hwf as [|? ? Ho Hops]; subst.
+  destruct (step_refines a st o Hrel Ho) as (_ & H2). apply IH; assumption.
+Qed.
+
+Lemma reverse_window_reachable ops O : Forall wf_op16 ops ->
+  match spec_after SInit ops with
+  | SInit => True
+  | SRun Next D =>
+      let a := l1_after l1_init ops in
+      l_nil a = false ->
+      Next - zl D - 8192 <= O < Next - zl D ->
+      let '(ok, s, _) := l1_reverse a (w16 O) in
+      ok = true -> exists S, w16 S = s /\ ~ In S D /\ out D S = O /\ S < Next
+  end.
+Proof.
+  intros Hwf. pose proof (rel_after ops l1_init SInit eq_refl Hwf) as Hrel.
+  destruct (spec_after SInit ops) as [|Next D]; [exact I|].
+  destruct Hrel as (gs & HI). intros a Hnil HO.
+  assert (Hne : gs <> []).
+  { intros E. unfold Inv in HI. cbn [gGs] in HI.
+    destruct HI as (_ & _ & _ & _ & _ & _ & _ & _ & _ & Hn & _).
+    subst gs. destruct Hn as (_ & Hn). unfold a in Hnil. rewrite (Hn eq_refl) in Hnil. discriminate. }
+  exact (reverse_window (l1_after l1_init ops) (mkGh Next D gs) O HI Hne HO).
+Qed.
